@@ -20,9 +20,6 @@ func (p *linkReferenceParagraphTransformer) Transform(node *ast.Paragraph, reade
 	for {
 		start, end := parseLinkReferenceDefinition(block, pc)
 		if start > -1 {
-			if start == end {
-				end++
-			}
 			removes = append(removes, [2]int{start, end})
 			continue
 		}
@@ -96,7 +93,7 @@ func parseLinkReferenceDefinition(block text.Reader, pc Context) (int, int) {
 	line, _ = block.PeekLine()
 	isNewLine := line == nil || util.IsBlank(line)
 
-	endLine, _ := block.Position()
+	endLine, endPos := block.Position()
 	_, spaces, _ := block.SkipSpaces()
 	opener := block.Peek()
 	if opener != '"' && opener != '\'' && opener != '(' {
@@ -120,9 +117,12 @@ func parseLinkReferenceDefinition(block text.Reader, pc Context) (int, int) {
 		if !isNewLine {
 			return -1, -1
 		}
+		// what follows the destination's line is not a title: it is paragraph text,
+		// so the next definition (if any) can not start behind it
+		block.SetPosition(endLine, endPos)
+		block.AdvanceLine()
 		ref := NewReference(label, destination, nil)
 		pc.AddReference(ref)
-		block.AdvanceLine()
 		return startLine, endLine + 1
 	}
 	var title []byte
@@ -140,9 +140,13 @@ func parseLinkReferenceDefinition(block text.Reader, pc Context) (int, int) {
 		if !isNewLine {
 			return -1, -1
 		}
-		ref := NewReference(label, destination, title)
+		// a title must be followed by the end of the line: the definition ends
+		// after the destination and has no title
+		block.SetPosition(endLine, endPos)
+		block.AdvanceLine()
+		ref := NewReference(label, destination, nil)
 		pc.AddReference(ref)
-		return startLine, endLine
+		return startLine, endLine + 1
 	}
 
 	endLine, _ = block.Position()
